@@ -360,6 +360,8 @@ def sign_patterns(r, rec, func, info, key):
                 rstar = solve_reference(info, kw, rv)
                 pert = {p: Fr(r.choice([1, -1]), 10**13) for p in kw}
                 rpert = solve_reference(info, kw, rstar, perturb=pert)
+                r15 = solve_reference(info, kw, rstar, dps=15)
+                unstable = not rel_close(rstar, r15, mpmath.mpf("1e-7")) or float_unstable(info, kw, rstar, mpmath.mpf("1e-7"))
         except TimeoutError:
             rec.add("sign_pattern_watchdog")
             continue
@@ -368,6 +370,9 @@ def sign_patterns(r, rec, func, info, key):
             continue
         if abs(mpmath.im(rstar)) > mpmath.mpf("1e-12") * max(1, abs(rstar)) or not rel_close(rstar, rpert, mpmath.mpf("1e-7")):
             rec.add("sign_pattern_reference_complex_or_ill_conditioned")
+            continue
+        if unstable:
+            rec.add("sign_pattern_double_precision_unstable")   # (exp(x) - 1 at tiny x: a limit of float evaluation, as in the main path)
             continue
         rec.hit("sign_patterns_compared")
         rec.case((key, "signs", signs), nontrivial=True)
